@@ -1,3 +1,4 @@
 import CohdlVerif.Model.DriverLoop
--- model driver of property C04 (stub: no model entry points yet)
-def main : IO Unit := CohdlVerif.driverLoop (fun _ => "bad-op")
+import CohdlVerif.Model.C04
+-- model driver of property C04:  `info ...` | `step ...`  (protocol: Model/C04.lean)
+def main : IO Unit := CohdlVerif.driverLoop CohdlVerif.C04.handle
